@@ -280,7 +280,8 @@ var c06Infix = []string{"+", "-", "*", "/", "//", "%", "**", "==", "!=", "<", "<
 
 var c06Seeds = []string{
 	"[1, 2, 3]", "[[1], [2, 3]]", "[]", "\"abc\"", "\"\"", "'sym", "5", "-3", "0", "2.5", "{a: 1, b: [2]}", "{}", "{_p: 1, q: {r: 2}}",
-	"%{1: 2, \"k\": [3]}", "%{}", "%{[1]: 2}", "(1:4)", "(5:1:-2)", "(?a:?d)", "nil", "true", "false", "{|x| x}", "{|a, k: 1| [a, k]}",
+	"%{1: 2, \"k\": [3]}", "%{}", "%{[1]: 2}", "%{[1]: \"a\", [2]: \"b\", [3]: \"c\"}", "%{{a: 1}: 1, [2]: 2, nil: 3, [4, 5]: 4}", "%{3: 1, 1: 2, [0]: 3, 2: 4}",
+	"[[1, \"a\"], [[2], \"b\"], [[2], \"c\"]].M", "{c: 3, a: 1, b: 2, _z: 0}", "(1:4)", "(5:1:-2)", "(?a:?d)", "nil", "true", "false", "{|x| x}", "{|a, k: 1| [a, k]}",
 	"[1, nil, 2]", "[3, 1, 2]", "\"a,b,c\"", "1.try", "1.try./(0)", "{a: 1}.bear({b: 2})", "Int.bear({twice: m{self * 2}}).new(4)", "Str.bear.new(\"sub\")",
 	"[\"x\", \"y\"]", "{name: \"n\", call: m{1}}", "(1:3).A", "\"#{1}x\"",
 }
@@ -588,7 +589,10 @@ func (c *c06Check) runHist(seed, run uint64, t *tape.Tape, s *C06Stats, lines *[
 				}
 			case 2:
 				opName = "map"
-				if t.Chance(1, 2) {
+				if t.Chance(1, 3) {
+					// a key the unpacked value already has (duplicate resolution paths)
+					src = fmt.Sprintf("%%{%s.keys[%d]: %s, **%s}", recv.name, t.Intn(4), arg(), recv.name)
+				} else if t.Chance(1, 2) {
 					src = fmt.Sprintf("%%{%s: %s, **%s}", arg(), arg(), recv.name)
 				} else {
 					src = fmt.Sprintf("%%{%s: %s, **%s, **%s}", arg(), arg(), recv.name, pick().name)
